@@ -533,7 +533,9 @@ impl FixtureDatabase {
         }
 
         // Check if this is a test function
-        let is_test = func_name.starts_with("test_");
+        // A function decorated as a fixture is not collected as a test by pytest, even
+        // when it is named test_*; scanning it again would record its parameters twice.
+        let is_test = func_name.starts_with("test_") && fixture_decorator.is_none();
 
         if is_test {
             debug!("Found test function: {}", func_name);
